@@ -368,7 +368,78 @@ theorem funded_tx_executes (h : Handler) (prices : List Nat) (tx : Tx) (v : View
   rw [hu] at hu'; simp at hu'; subst hu'
   rw [hf] at hf'; simp at hf'; rw [hfee, hf']
 
-/-- **C03 (g)** block-level layer (view → block diff → parent storage): committing a
+/-- exact precondition of `funded_tx_executes`: with computable units/fee and a readable and
+writable sponsor record, `Execute` returns a result **iff** the sponsor's record exists, parses
+and covers the fee. -/
+theorem executes_iff_funded (h : Handler) (prices : List Nat) (tx : Tx) (v : View)
+    (units : List Nat) (fee : Nat)
+    (hu : tx.units = some units) (hf : feeOf prices units 0 = some fee)
+    (hr : has (v.scope (h.key tx.sponsor)) permRead = true)
+    (hw : has (v.scope (h.key tx.sponsor)) permWrite = true) :
+    (∃ v' r, txExecute h prices tx v = (v', .ok r)) ↔
+      ∃ bal, readBal h v.cur tx.sponsor = some bal ∧ fee ≤ bal := by
+  constructor
+  · rintro ⟨v', r, hx⟩
+    obtain ⟨units', fee', bal, hu', hf', _, _, _, _, hb, hle, _⟩ := fee_charged_first h prices tx v v' r hx
+    rw [hu] at hu'; simp at hu'; subst hu'
+    rw [hf] at hf'; simp at hf'; subst hf'
+    exact ⟨bal, hb, hle⟩
+  · rintro ⟨bal, hb, hle⟩
+    obtain ⟨v', r, hx, _⟩ := funded_tx_executes h prices tx v units fee bal hu hf hr hw hb hle
+    exact ⟨v', r, hx⟩
+
+/-- The gap between `PreExecute` and `Execute` ("Invariant: PreExecute is called just before
+Execute ... should never fail for low balance"): `CanDeduct` accepts but the fee step fails
+**exactly** when the fee is zero and the sponsor has no balance record — `GetBalance` reads an
+absent record as 0, `Deduct` insists on an existing record. -/
+theorem execute_error_after_preexecute_ok (h : Handler) (a : Addr) (v : View) (fee : Nat)
+    (hr : has (v.scope (h.key a)) permRead = true)
+    (hc : h.canDeduct a v fee = none)
+    (hno : ¬ ∃ bal, readBal h v.cur a = some bal ∧ fee ≤ bal) :
+    v.cur (h.key a) = none ∧ fee = 0 := by
+  cases hk : v.cur (h.key a) with
+  | none =>
+    refine ⟨rfl, ?_⟩
+    have hg : v.get (h.key a) = .error .notfound := by simp [View.get, hr, hk]
+    cases h with
+    | pfx p => simp [Handler.canDeduct, Handler.getBalance, hg] at hc; omega
+    | morpheus => simp [Handler.canDeduct, Handler.getBalance, hg, mInner, Except.map] at hc; omega
+  | some x =>
+    exfalso
+    have hg : v.get (h.key a) = .ok x := by simp [View.get, hr, hk]
+    cases hd : decU64 x with
+    | none =>
+      cases h with
+      | pfx p => simp [Handler.canDeduct, Handler.getBalance, hg, hd] at hc
+      | morpheus => simp [Handler.canDeduct, Handler.getBalance, hg, mInner, hd, Except.map] at hc
+    | some n =>
+      apply hno
+      refine ⟨n, by simp [readBal, hk, hd], ?_⟩
+      cases h with
+      | pfx p => simp [Handler.canDeduct, Handler.getBalance, hg, hd] at hc; omega
+      | morpheus => simp [Handler.canDeduct, Handler.getBalance, hg, mInner, hd, Except.map] at hc; omega
+
+/-- witness of the gap (known finding `build-aborts-on-zero-fee-absent-sponsor`): all unit prices
+0, sponsor without a balance record: `PreExecute` passes, `Execute` returns an error (no result,
+nothing charged — the fee is 0), and a builder that streams this transaction aborts the build. -/
+def gapTx : Tx := { sponsor := [1], units := some [100, 3, 7, 25, 13], actions := [], timestamp := 30000 }
+def gapScope : Key → Nat := fun _ => permAll
+def errOf {α : Type} : Except Err α → Option Err
+  | .error e => some e
+  | .ok _ => none
+
+theorem zero_fee_absent_sponsor_counterexample :
+    preExecute {} (.pfx [3]) [0, 0, 0, 0, 0] gapTx { cur := fun _ => none, scope := gapScope } 0 = none ∧
+    (txExecute (.pfx [3]) [0, 0, 0, 0, 0] gapTx { cur := fun _ => none, scope := gapScope }).2.toOption.isNone = true ∧
+    errOf (builderBlock {} (.pfx [3]) [0, 0, 0, 0, 0] 0 [1000, 1000, 1000, 1000, 1000] [(gapScope, gapTx)]
+        ({ parent := fun _ => none }, [0, 0, 0, 0, 0])) = some Err.insufficient := by
+  decide +kernel
+
+/-- **C03 (g)** (definitional: true by construction of `Block.commit`; its content is the
+*assumption*, discharged by C04's pending = exact-diff invariant and tied by the harness on
+`TState.ChangedKeys` and on the real `Processor`/`Builder` post-state, that the real
+`TStateView.Commit` behaves like `Block.commit`.)
+Block-level layer (view → block diff → parent storage): committing a
 transaction publishes exactly the view's visible values — after the commit the block's visible
 map *is* the map the transaction left (so every applied effect of a successful transaction,
 including re-creating a key an earlier transaction of the block deleted with the value it had
